@@ -642,6 +642,168 @@ def c04(report):
                            "the interferer also draws from and re-seeds numpy's and Python's global generators"]
 
 
+# ---------------------------------------------------------------------------
+# C18 containers / caller objects, C20 relabelling, row order, reward laws (cross-binding comparison on Life.tla graphs)
+def cross_jobs(tier, seed, variants, relation, ops, only=None, dims=2, caller_check=False, tag="", depth=None, sims=True):
+    from harness import gen
+    jobs = []
+    for i, (lp, np_) in enumerate(combos(tier, seed, only)):
+        base = dict(lp=lp, np_=np_, dims=dims, n_jobs=1, backend=None)
+        binds = [dict(base, **v) for v in variants(lp, np_, i)]
+        if len(binds) < 2:
+            continue
+        b = gen.GenBinding(**binds[0])
+        o = dict(Ops=set(ops), MinFit=b.min_fit, MaxDepth=depth or (5 if tier == "thorough" else 4), QueryRows={1, 3})
+        common = dict(module="Life", bindings=binds, invariants=ecf.LIFE_INVARIANTS, properties=ecf.LIFE_PROPERTIES,
+                      checks=("state",), cross=relation, caller_check=caller_check)
+        name = "cross%s-%s-%s" % (tag, lp, np_ or "none")
+        jobs.append(dict(common, name=name + "-bfs", mode="bfs", consts=ecf.life_consts(**o)))
+        if sims:
+            jobs.append(dict(common, name=name + "-sim", mode="sim", sim_num=40 if tier == "thorough" else 12, seed=seed + i,
+                             consts=ecf.life_consts(**dict(o, MaxDepth=9, MaxHist=8))))
+    return jobs
+
+
+def c18(report):
+    from harness import tlc
+    report.nontrivial_rule = ("query edges of Life.tla graphs replayed under every container type and compared edge by edge with "
+                              "the ndarray replay; byte snapshots of every caller object around every call")
+    def variants(lp, np_, i):
+        return [dict(container=c) for c in ("ndarray", "list", "pandas", "fortran", "view", "int")]
+    ops = FULL_OPS | {"warm_start"}
+    jobs = cross_jobs(report.tier, report.seed, variants, "exact", ops, caller_check=True, tag="-c18")
+    # single-feature data: a pandas Series as contexts (column orientation)
+    def variants1(lp, np_, i):
+        return [dict(container=c) for c in ("ndarray", "series1", "list")]
+    jobs += cross_jobs(report.tier, report.seed + 1, variants1, "exact", ops, only=lambda c: c[1] is not None or c[0].startswith("lin-"),
+                       dims=1, caller_check=True, tag="-c18d1", sims=False)
+    ecf.run_jobs(report, jobs, by_clause("cross.", "caller.", "call.exception", "state."))
+    # Series orientation: every valid case of Orient.tla on real bandits
+    result = tlc.run("Orient", dict(MaxLen=3), invariants=["Inv_C18_Unambiguous"], view=None, constraint=None, workers=1, timeout=300)
+    if result.violated:
+        raise Machinery("Orient.tla: %s violated" % result.violated)
+    report.add_tlc("Orient/series-cases", result, ["Inv_C18_Unambiguous"])
+    _series_cases(report, result.edges)
+    _caller_objects(report)
+    report.nontrivial = set(range(report.coverage.get("cross.outputs_compared", 0)))
+    report.evaluations = report.replayed + report.coverage.get("c18.series_cases", 0)
+    report.assumptions += ["a pandas Series as QUERY contexts of a context-free bandit is excluded: the orientation rule needs stored "
+                           "features and the library raises AttributeError there (recorded in DESIGN.md as an observation)"]
+
+
+def _series_cases(report, cases):
+    """A Series and the 2-D array Orient.tla says it stands for must give identical results."""
+    import numpy as np
+    import pandas as pd
+    import warnings
+    from harness.snap import same
+    from mabwiser.mab import MAB, LearningPolicy as LP, NeighborhoodPolicy as NP
+    warnings.filterwarnings("ignore")
+    makers = [lambda: MAB([1, 2], LP.LinUCB(1.0, 1.0)), lambda: MAB([1, 2], LP.EpsilonGreedy(0), NP.Radius(10.0)),
+              lambda: MAB([1, 2], LP.UCB1(1.0), NP.KNearest(1)), lambda: MAB([1, 2], LP.EpsilonGreedy(0), NP.TreeBandit()),
+              lambda: MAB([1, 2], LP.LinTS(0.5, 1.0)), lambda: MAB([1, 2], LP.UCB1(1.0), NP.LSHNearest(2, 2))]
+    n = 0
+    for case in cases:
+        d, ln = case["d"], case["len"]
+        for make in makers:
+            n += 1
+            where = {"case": case}
+            try:
+                if case["isFit"]:
+                    dec = [1, 2, 1][: case["n"]]
+                    rew = [1.0, 0.0, 2.0][: case["n"]]
+                    vals = [float(i + 1) for i in range(ln)]
+                    a, b = make(), make()
+                    a.fit(dec, rew, pd.Series(vals))
+                    b.fit(dec, rew, np.asarray(vals).reshape(case["shape"]))
+                    q = [[float(j) for j in range(d)]]
+                    x, y = a.predict_expectations(q), b.predict_expectations(q)
+                else:
+                    a, b = make(), make()
+                    train = [[float((i * (j + 2)) % 3) for j in range(d)] for i in range(4)]
+                    for m in (a, b):
+                        m.fit([1, 2, 1, 2], [1.0, 0.0, 2.0, 1.0], train)
+                    vals = [float(i % 3) for i in range(ln)]
+                    x = a.predict_expectations(pd.Series(vals))
+                    y = b.predict_expectations(np.asarray(vals).reshape(case["shape"]))
+                if not same(x, y):
+                    report.findings.append({"clause": "series.orientation", "op": "series", "engine": "series", "path": [],
+                                            "detail": "case %s: the Series gives %r, the %s array gives %r" % (case, x, case["shape"], y),
+                                            "label": where, "binding": {}})
+            except Exception as error:  # noqa
+                report.findings.append({"clause": "series.exception", "op": "series", "engine": "series", "path": [],
+                                        "detail": "case %s raised %s: %s" % (case, type(error).__name__, error), "label": where,
+                                        "binding": {}})
+    report.count("c18.series_cases", n)
+
+
+def _caller_objects(report):
+    """The arms list, policy parameter objects and the arm-feature dictionary belong to the caller."""
+    import pickle
+    from mabwiser.mab import MAB, LearningPolicy as LP, NeighborhoodPolicy as NP
+    cases = 0
+    for np_factory in (lambda p: None, lambda p: NP.TreeBandit(p["tree"]), lambda p: NP.Radius(2.0, "euclidean", p["probs"]),
+                       lambda p: NP.LSHNearest(2, 2, p["probs"]), lambda p: NP.Clusters(2), lambda p: NP.KNearest(1)):
+        for lp in (LP.EpsilonGreedy(0.1), LP.UCB1(1), LP.ThompsonSampling()):
+            arms = [1, 2, 3]
+            params = {"tree": {"max_depth": 2}, "probs": [0.5, 0.25, 0.25]}
+            if isinstance(lp, LP.ThompsonSampling().__class__) and False:
+                continue
+            npol = np_factory(params)
+            if isinstance(npol, NP.TreeBandit) is False and npol is not None and False:
+                continue
+            snap = pickle.dumps((arms, params))
+            mab = MAB(arms, lp, npol, seed=3)
+            ctx = [[0.0, 1.0], [1.0, 0.0], [1.0, 1.0], [2.0, 1.0]]
+            args = ([1, 2, 3, 1], [1, 0, 1, 0]) + ((ctx,) if npol is not None else ())
+            mab.fit(*args)
+            mab.predict(ctx[:2]) if npol is not None else mab.predict()
+            cases += 1
+            if pickle.dumps((arms, params)) != snap:
+                report.findings.append({"clause": "caller.modified", "op": "construct", "engine": "caller", "path": [], "label": {},
+                                        "detail": "constructing / training %s with %s changed the caller's arms list or parameter "
+                                                  "objects: %r %r" % (lp, npol, arms, params), "binding": {}})
+            arms.append(99)
+            if 99 in mab.arms or 99 in mab._imp.arms:
+                report.findings.append({"clause": "caller.arms_aliased", "op": "construct", "engine": "caller", "path": [], "label": {},
+                                        "detail": "appending to the list the bandit was constructed from changed the bandit's arms "
+                                                  "(%s, %s)" % (lp, npol), "binding": {}})
+    report.count("c18.caller_cases", cases)
+
+
+def c20(report):
+    report.nontrivial_rule = ("query edges of Life.tla graphs replayed on the original and on the transformed problem (relabelled "
+                              "arms, permuted rows, shifted / scaled rewards) from the same seed and compared edge by edge")
+    ops = FULL_OPS | {"warm_start"}
+    def relabel(lp, np_, i):
+        return [dict(labelmap=m) for m in ("int", "str", "float")]
+    jobs = cross_jobs(report.tier, report.seed, relabel, "exact", ops, tag="-relabel")
+    def perm(lp, np_, i):
+        return [dict(perm_seed=None), dict(perm_seed=1 + i), dict(perm_seed=50 + i)]
+    row_ok = lambda c: c[1] in (None, "radius", "lsh") and c[0] != "random"
+    jobs += cross_jobs(report.tier, report.seed + 1, perm, "close", {"fit", "partial_fit", "predict_expectations"}, only=row_ok,
+                       tag="-roworder")
+    def shift(lp, np_, i):
+        return [dict(), dict(shift=2), dict(shift=-1)]
+    jobs += cross_jobs(report.tier, report.seed, shift, "law", {"fit", "partial_fit", "predict_expectations"},
+                       only=lambda c: c[1] is None and c[0] in ("eg", "ucb1", "softmax"), tag="-shift", sims=False)
+    def scale(lp, np_, i):
+        return [dict(), dict(scale=3), dict(scale=0.5)]
+    jobs += cross_jobs(report.tier, report.seed, scale, "law", {"fit", "partial_fit", "predict_expectations"},
+                       only=lambda c: c[1] is None and c[0] == "lin-greedy", tag="-scale", sims=False)
+    ecf.defer(jobs, by_clause("cross.", "call.exception"))
+    # the statistics themselves: TLC checks rename / row-order / shift-scale invariance on the Def layer of Mab.tla
+    inv = ["Inv_C20_RowOrder", "Inv_C20_Rename", "Inv_C20_ShiftScale", "Inv_C01_Acc"]
+    mjobs = cf_jobs(["eg", "ucb1", "softmax", "ts"], report.tier, report.seed, ops={"fit", "partial_fit", "predict_expectations"},
+                    over=dict(QueryRows={0}), checks=("state",), invariants=inv, properties=[], sims=False, tag="-c20")
+    ecf.defer(mjobs, by_clause("state.acc", "state.expv"))
+    ecf.flush(report)
+    report.nontrivial = set(range(report.coverage.get("cross.outputs_compared", 0)))
+    report.evaluations = report.replayed
+    report.assumptions += ["row-order invariance is checked for context-free, linear, Radius and LSHNearest (as the property states); "
+                           "reward laws for histories in which the compared arm has been observed"]
+
+
 def _nontrivial_from_counts(report, key=None):
     # distinct non-trivial cases are counted by the replay engine per job (distinct spec states / edges)
     n = report.coverage.get(key, 0) if key else report.coverage.get("cf.states", 0)
@@ -649,7 +811,7 @@ def _nontrivial_from_counts(report, key=None):
     report.evaluations = report.replayed
 
 
-CHECKS = {"C01": c01, "C02": c02, "C03": c03, "C04": c04, "C05": c05, "C11": c11, "C12": c12, "C06": c06, "C07": c07, "C08": c08, "C09": c09, "C10": c10, "C13": c13, "C14": c14, "C15": c15, "C16": c16,
+CHECKS = {"C01": c01, "C02": c02, "C03": c03, "C04": c04, "C05": c05, "C11": c11, "C12": c12, "C06": c06, "C07": c07, "C08": c08, "C09": c09, "C10": c10, "C13": c13, "C14": c14, "C15": c15, "C16": c16, "C18": c18, "C20": c20,
           "C17": c17, "C19": c19}
 
 
